@@ -56,11 +56,15 @@ def hasDuplicateNames : List (List Char) → Bool
   | [] => false
   | n :: rest => rest.contains n || hasDuplicateNames rest
 
+/-- the two names whose table stream would be the string pool's own streams -/
+def isPoolName (n : List Char) : Bool := n == Gen.nameStringPool.toList || n == Gen.nameStringData.toList
+
 /-- every check `create_table` makes before it changes anything, in the order of the code:
-names, arity, key, duplicates, existence, storability, and that the three catalog tables
+names (the two names whose table stream would be the string pool's own streams are reserved), arity, key, duplicates, existence, storability, and that the three catalog tables
 can hold the new rows -/
 def createError (s : Pkg) (name : List Char) (cols : List Column) : Option ErrKind :=
   if !Table.isValidName name then some .invalidInput else
+  if isPoolName name then some .invalidInput else
   if cols.isEmpty then some .invalidInput else
   if cols.length > Gen.maxTableColumns then some .invalidInput else
   if !cols.any (·.isPrimaryKey) then some .invalidInput else
